@@ -184,6 +184,12 @@ class Gen:
                     [r_site(3, [key_i(x)]) for x in range(len(Q["ret"]["refs"]))])
             refs = outs + (ret["refs"][:2] if ret and ret["shape"] in ("tuple", "list") else [])
             ret = {"shape": "tuple", "refs": refs, "keys": []}
+        if self.focus == "eq-default-sub" and self.depth == 0 and self.sites and self.sites[0]["kind"] == "sub":
+            Q = self.subs[self.sites[0]["sub"] - 1]
+            last = len(Q["ret"]["refs"]) - 1
+            out = r_site(1, [key_s(Q["ret"]["keys"][last])]) if Q["ret"]["shape"] == "dict" else r_site(1, [key_i(last)])
+            refs = [out] + (ret["refs"][:2] if ret and ret["shape"] in ("tuple", "list") else [])
+            ret = {"shape": "tuple", "refs": refs, "keys": []}
         if self.focus == "grid" and self.depth == 0:
             # what the usages with list / tuple / int keys delivered must be visible in the returned value
             refs = [r_site(2)] + (ret["refs"][:2] if ret and ret["shape"] in ("tuple", "list") else [])
@@ -264,6 +270,9 @@ class Gen:
         site = {"kind": "call", "fn": "mix", "args": [], "kw": [], "active": r_none(), "unpack": 0, "sub": 0, "setup": False}
         if self.focus == "flagged-sub" and self.depth == 0 and not self.sites:
             self.add_sub_site(site, j, force=True)
+            return
+        if self.focus == "eq-default-sub" and self.depth == 0 and not self.sites:
+            self.add_sub_site(site, j, eqdef=True)
             return
         if rng.random() < (0.12 if self.depth == 0 else 0.08):
             # a setup call site: constants and results of other setup sites only; computed once per DAG object
@@ -436,10 +445,10 @@ class Gen:
             self.ints = self.ints[:n_ints]
         self.sites.append(site)
 
-    def add_sub_site(self, site, j, force=False, pair_arg=None, arg_type="pair"):
+    def add_sub_site(self, site, j, force=False, pair_arg=None, arg_type="pair", eqdef=False):
         rng = self.rng
-        reuse = bool(self.subs) and rng.random() < 0.15 and not force and pair_arg is None
-        want_flag = ((self.allow_flags and rng.random() < 0.25) or force) and pair_arg is None
+        reuse = bool(self.subs) and rng.random() < 0.15 and not force and pair_arg is None and not eqdef
+        want_flag = ((self.allow_flags and rng.random() < 0.25) or force) and pair_arg is None and not eqdef
         if reuse:
             sub_idx = rng.randrange(len(self.subs)) + 1
             Q = self.subs[sub_idx - 1]
@@ -486,11 +495,27 @@ class Gen:
             if Q["ret"]["shape"] == "dict":
                 Q["ret"]["keys"] = ["k%d" % x for x in range(len(Q["ret"]["refs"]))]
             nargs = rng.randint(required, len(Q["params"]) - 1)
+        eq_const = None
+        if eqdef:
+            # a nested DAG whose last parameter has a default, called with an explicit constant that is EQUAL to the default
+            # without being the same value (True == 1, 0 == False): the explicit argument is what the body sees.  The
+            # parameter is handed straight back so that the value is visible
+            dflt, eq_const = rng.choice([(1, True), (0, False), (True, 1), (False, 0)])
+            Q["params"].append({"has": True, "v": encode(dflt)})
+            Q["ptypes"].append("any")
+            if Q["ret"]["shape"] == "single":
+                Q["ret"]["shape"] = rng.choice(["tuple", "list"])
+            Q["ret"]["refs"].append(r_param(len(Q["params"])))
+            if Q["ret"]["shape"] == "dict":
+                Q["ret"]["keys"] = ["k%d" % x for x in range(len(Q["ret"]["refs"]))]
+            nargs = len(Q["params"])
         args = []
         if pair_arg is not None:
             nargs = max(nargs, 1)
         for p in range(nargs):
-            if p == 0 and pair_arg is not None:
+            if eq_const is not None and p == nargs - 1:
+                args.append(r_const(eq_const))
+            elif p == 0 and pair_arg is not None:
                 args.append(pair_arg)
             elif Q["ptypes"][p] == "pair":
                 # an argument that is itself an indexed result (pair(..)[0] of a pair of a pair) whenever there is one
